@@ -98,7 +98,7 @@ def length(rng, lo, hi, p_unit=0.18, p_pct=0.14, positive=False):
     return v
 
 
-PAINTS = ["red", "#00f", "#336699", "none", "rgb(10,20,30)", "#12345680", "lime"]
+PAINTS = ["red", "#00f", "#336699", "none", "rgb(10,20,30)", "#12345680", "lime", "#11223300", "rgba(4,5,6,0)"]
 
 
 def paint(rng, node, p=0.5):
@@ -528,6 +528,24 @@ def special_documents():
         doc("par-root/" + par, ' width="200" height="100" viewBox="0 0 50 80" preserveAspectRatio="%s"' % par, R)
         doc("par-nested/" + par, ' width="200" height="100"',
             '<svg x="5" y="6" width="90" height="30" viewBox="3 4 50 80" preserveAspectRatio="%s">%s</svg>' % (par, R))
+    # unit scale on exactly one axis, unit scale with an offset, pure offset (the branches of the final
+    # translate/scale text of the viewport transform), and a non-default preserveAspectRatio above a nested
+    # viewport that does not set its own (the attribute is not inherited)
+    doc("par-none-unit-x", ' width="100" height="300" viewBox="0 0 100 100" preserveAspectRatio="none"', R)
+    doc("par-none-unit-y", ' width="300" height="100" viewBox="0 0 100 100" preserveAspectRatio="none"', R)
+    doc("par-none-unit-x-offset", ' width="100" height="300" viewBox="7 9 100 100" preserveAspectRatio="none"', R)
+    doc("par-none-unit-y-nested", ' width="200" height="100"',
+        '<svg x="5" y="6" width="90" height="50" viewBox="3 4 30 50" preserveAspectRatio="none">%s</svg>' % R)
+    doc("viewbox-pure-offset", ' width="100" height="100" viewBox="7 9 100 100"', R)
+    # paints whose alpha is exactly 0 or exactly 1 in the colour syntax itself, and opacity attributes of 0 and 1
+    doc("alpha-zero-paint", ' width="100" height="100"',
+        '<rect id="a" width="10" height="5" fill="#11223300" stroke="rgba(4,5,6,0)" stroke-width="2"/>'
+        '<rect id="b" y="9" width="10" height="5" fill="#112233ff" stroke="rgba(4,5,6,1)" stroke-width="2"/>'
+        '<rect id="c" y="19" width="10" height="5" fill="red" fill-opacity="0" stroke="blue" stroke-opacity="0"/>'
+        '<rect id="d" y="29" width="10" height="5" fill="red" fill-opacity="1" stroke="blue" stroke-opacity="1"/>')
+    for par in ("none", "xMinYMin slice", "xMaxYMax meet"):
+        doc("par-not-inherited/" + par, ' width="200" height="100" viewBox="0 0 50 80" preserveAspectRatio="%s"' % par,
+            '<svg x="5" y="6" width="90" height="30" viewBox="3 4 50 80">%s</svg>' % R)
     doc("defs-unreferenced", ' width="100" height="100"', "<defs>" + R + '<g id="gg"><circle id="c" r="3"/></g></defs>'
         '<circle id="d" cx="5" cy="5" r="2"/>')
     doc("display-none-attr", ' width="100" height="100"', '<g display="none">' + R + "</g>"
